@@ -6,6 +6,10 @@ import os
 
 ROOT = os.path.dirname(os.path.dirname(os.path.abspath(__file__)))
 NOTES = {
+    "C17-r9-1": "missed at first (the key strings of name-tree leaves were always written directly); caught after 25% of the name trees write them as indirect objects (all, or 40% of the keys)",
+    "C05-r9-1": "the range form of /W2 under a vertical CMap: C05 has no vertical fonts; a CID-font metrics matter caught by C07 (adv:adv_v)",
+    "C02-r9-1": "the same slip as C02-r8-1, found independently by a second seeder",
+    "C13-r9-1": "the same slip as C13-r8-1, found independently by a second seeder",
     "C01-r7-2": "missed at first (names were compared by their bytes only); caught after C01 also asserts the representation (text for valid UTF-8, bytes otherwise) that every spelling of a name must share",
     "C02-r7-2": "same change as C10-r3-2 (members of object streams deciphered twice): C02 holds no encrypted documents; caught by C10",
     "C04-r7-1": "missed at first (every page had content); caught after 8% of the pages have no /Contents or an empty array",
